@@ -542,6 +542,19 @@ func oracleC19(w *h.Worker, b *h.Built, inst string, st *trie.SlimTrie, u *input
 			return &h.Viol{Sig: "string-roundtrip", Msg: "loaded instance renders differently from the fresh one"}
 		}
 	}
+	// the one annotation whose true value the harness knows: in a step-sweep list
+	// run<L> whose first key is the L-byte run itself, the root skips exactly 8L bits
+	var runLen int
+	if n, _ := fmt.Sscanf(u.sc.Name, "run%d", &runLen); n == 1 && len(b.Keys) >= 2 && len(b.Keys[0]) == runLen && len(b.Kept) >= 2 && b.Kept[0] == 0 {
+		first := s
+		if i := strings.IndexByte(s, '\n'); i >= 0 {
+			first = s[:i]
+		}
+		want := fmt.Sprintf("#000+%d*", 8*runLen)
+		if !strings.HasPrefix(first, want) {
+			return &h.Viol{Sig: "string-root-step", Msg: fmt.Sprintf("the root line is %q, but the root skips exactly %d bits (want prefix %q)", first, 8*runLen, want)}
+		}
+	}
 	return nil
 }
 
